@@ -480,6 +480,8 @@ def _obj_from_json(j, kind):
     x = cls(np.array(j['qd'], dtype=int), [np.array(q, dtype=int) for q in j['qD']], fill='postpone')
     A = [np.array(a, dtype=complex) for a in j['A']]
     x.A = [a.real.copy() if np.all(a.imag == 0) else a for a in A]
+    if j.get('dtype') == 'int':
+        x.A = [np.rint(a.real).astype(int) for a in A]
     return x
 
 
@@ -790,12 +792,15 @@ def check_operation(inp):
 
 # ------------------------------------------------------------------------------------------- C01
 
-def random_state_input(rng, cls, L, d=2, Dmax=3, qrange=(-1, 2), real=False):
+def random_state_input(rng, cls, L, d=2, Dmax=3, qrange=(-1, 2), real=False, integer=False):
     import pytenet as ptn
     qd = rng.integers(*qrange, size=d)
     D = [1] + [int(rng.integers(1, Dmax + 1)) for _ in range(L - 1)] + [1]
     qD = [rng.integers(*qrange, size=n) for n in D]
     x = (ptn.MPS if cls == 'mps' else ptn.MPO)(qd, qD, fill='random', rng=rng)
+    if integer:
+        A = [np.where(a != 0, rng.integers(-3, 4, size=a.shape), 0).tolist() for a in x.A]
+        return dict(cls=cls, x=dict(qd=qd.tolist(), qD=[q.tolist() for q in qD], A=A, dtype='int'))
     A = [a.real.tolist() if real else a.tolist() for a in x.A]
     return dict(cls=cls, x=dict(qd=qd.tolist(), qD=[q.tolist() for q in qD], A=A))
 
